@@ -149,7 +149,7 @@ func genClock(r *hx.Rng, canonical bool) sei.ClockTS {
 		case 2:
 			c.TimeOffsetValue = uint32(r.U64())
 		case 3:
-			c.Seconds, c.UnitsFieldBasedFlag, c.TimeOffsetLength = byte(r.U64()), r.Bool(), byte(r.Intn(32))
+			c.Seconds, c.UnitsFieldBasedFlag, c.TimeOffsetLength = byte(r.U64()), r.Bool(), byte(r.Intn(57))
 		}
 	}
 	return c
@@ -202,7 +202,7 @@ func genClockAvc(r *hx.Rng, tolen byte, canonical bool) sei.ClockTSAvc {
 		case 1:
 			c.CountingType, c.CtType = byte(r.U64()), byte(r.U64())
 		case 2:
-			c.TimeOffsetLength = byte(r.Intn(32))
+			c.TimeOffsetLength = byte(r.Intn(57))
 		case 3:
 			c.Seconds, c.NuitFieldBasedFlag = byte(r.U64()), r.Bool()
 		}
